@@ -165,7 +165,12 @@ func (v Value) IsNaN() bool {
 		return false
 	}
 
-	return math.IsNaN(v.float64())
+	// An object is converted (valueOf/toString may throw: then it is not NaN).
+	result := false
+	catchPanic(func() { //nolint:errcheck, gosec
+		result = math.IsNaN(v.float64())
+	})
+	return result
 }
 
 // IsString will return true if value is a string (primitive).
